@@ -394,6 +394,10 @@ func ruleEvents(c *Ctx) {
 		mt := p.Fn("lua", "(*LState).metatable")
 		gm := p.Fn("lua", "(*LState).GetMetatable")
 		okRaw := len(callsTo(fn, mt)) > 0 && len(callsTo(fn, gm)) == 0
+		// metaOp2 written as two metaOp1 lookups reads the metatable where metaOp1 does (checked for metaOp1)
+		if mo1 := p.Fn("lua", "(*LState).metaOp1"); name == "(*LState).metaOp2" && mo1 != nil && len(callsTo(fn, mt)) == 0 && len(callsTo(fn, mo1)) == 2 && len(callsTo(fn, gm)) == 0 {
+			okRaw = true
+		}
 		for _, cl := range callsTo(fn, mt) {
 			if b, ok := constBool(cl.Call.Args[2]); !ok || !b {
 				okRaw = false
@@ -407,6 +411,10 @@ func ruleEvents(c *Ctx) {
 		mt := p.Fn("lua", "(*LState).metatable")
 		calls := callsTo(fn, mt)
 		g := p.G(fn)
+		if len(calls) == 0 {
+			// … or two metaOp1 lookups, the left operand's first
+			calls = callsTo(fn, p.Fn("lua", "(*LState).metaOp1"))
+		}
 		okc := len(calls) == 2 && vkey(calls[0].Call.Args[1]) == pkeyAt(paramsOfType(fn, "LValue"), 0) && vkey(calls[1].Call.Args[1]) == pkeyAt(paramsOfType(fn, "LValue"), 1) && (g.Dominates(calls[0], calls[1]))
 		c.check(okc, R, "metaOp2:left-first", p.pos(fn.Pos()), "the left operand's metatable is consulted before the right one's", "metaOp2 does not try the left operand first")
 	}
